@@ -137,6 +137,9 @@ var methods = map[string]func(e *zerolog.Event) *zerolog.Event{
 	"Floats64Inline": func(e *zerolog.Event) *zerolog.Event { return e.Floats64("fi", []float64{vF64[variant], 0.5}) },
 	"BoolsInline":    func(e *zerolog.Event) *zerolog.Event { return e.Bools("bi", []bool{variant == 0, true}) },
 	"TimesInline":    func(e *zerolog.Event) *zerolog.Event { return e.Times("ti", []time.Time{vTime[variant], vTime[0]}) },
+	// Type with a VALUE operand (not a pointer, not a constant): converted to interface{} at the call site, on the stack as long
+	// as Type does not let its parameter escape
+	"TypeInline": func(e *zerolog.Event) *zerolog.Event { return e.Type("tyi", vF64[variant]).Type("tys", vStr[variant]) },
 	"DursInline": func(e *zerolog.Event) *zerolog.Event {
 		return e.Durs("di", []time.Duration{vDur[variant], time.Second})
 	},
